@@ -25,6 +25,13 @@ TRUSTED_BASE_COMMON = [
 ]
 
 
+class ImplCrash(Exception):
+    """the implementation-side process died (segfault, abort, killed): the payload that was running is the replay"""
+    def __init__(self, script, payload, rc, stderr):
+        Exception.__init__(self, "impl script %s died rc=%s" % (script, rc))
+        self.script = script; self.payload = payload; self.rc = rc; self.stderr = stderr
+
+
 class Ctx:
     """one check invocation"""
 
@@ -199,7 +206,7 @@ def run_impl(ctx, script, payload, timeout=1800, tag=""):
                        stdout=subprocess.PIPE, stderr=subprocess.PIPE, text=True)
     shutil.rmtree(d, ignore_errors=True)
     if p.returncode != 0:
-        raise RuntimeError("impl script %s failed rc=%d\n%s" % (script, p.returncode, p.stderr[-3000:]))
+        raise ImplCrash(script, payload, p.returncode, p.stderr[-3000:])
     # last line of stdout is the JSON (cffi may print above it)
     line = p.stdout.strip().splitlines()[-1]
     return json.loads(line)
@@ -227,7 +234,12 @@ def run_impl_parallel(ctx, script, payloads, timeout=1800):
         so = open(fout).read(); se = open(ferr).read()
         shutil.rmtree(d, ignore_errors=True)
         if p.returncode != 0:
-            raise RuntimeError("impl script %s failed rc=%s\n%s" % (script, p.returncode, se[-3000:]))
+            crashed = ImplCrash(script, payloads[len(outs)], p.returncode, se[-3000:])
+            for q, d2, _, _ in procs:
+                try: q.kill()
+                except Exception: pass
+                shutil.rmtree(d2, ignore_errors=True)
+            raise crashed
         outs.append(json.loads(so.strip().splitlines()[-1]))
     return outs
 
